@@ -316,9 +316,36 @@ def rule_resolution(ck, F):
                                        "the default body part is not the first part of the message")
     m = F.lib.body("model::soap::binding::map_to_rust_node")
     if m is not None:
-        mt = " ".join(Hh.describe(x) for x in Hh.exprs(Hh.norm_body(m)["value"]) if x.get("k") == "MethodCall")
-        keyed = ".parts.get(" in mt.replace(" ", "") or "parts.get(" in mt
-        (ck.ok if keyed else ck.violation)("R6", "parts-by-key", m["span"], "named parts are fetched by key" if keyed else "named parts are not fetched by key")
+        # every lookup in the message's part table: `parts.get(name)`, or a search whose predicate is exactly `key == name`
+        looks = []
+
+        def cbm(e, env, ctx):
+            if e.get("k") != "MethodCall":
+                return
+            recv = W.NF.nf(e["recv"], env)
+            on_parts = isinstance(recv, tuple) and recv[0] == "field" and recv[2] == "parts"
+            if e["name"] in ("get", "get_key_value") and on_parts and e["args"]:
+                looks.append(("get", e, None))
+            if e["name"] in ("find", "position", "any", "filter", "find_map", "rfind") and on_parts and e["args"]:
+                pred = W.NF.closure_apply(e["args"][0], [("elem", recv)], env)
+                looks.append((e["name"], e, pred))
+        W.walk_fn(m["path"], cbm)
+        bad = []
+        for how, e, pred in looks:
+            if how == "get":
+                continue
+            ps = og.nf_str(pred)
+            exact = isinstance(pred, tuple) and pred[0] == "binop" and pred[1] == "Eq" and ".0" in ps and " Or " not in ps and " And " not in ps
+            if not exact:
+                bad.append((how, Hh.sp(e), ps[:140]))
+        if looks and not bad:
+            ck.ok("R6", "parts-by-key", m["span"], f"named parts are fetched by key ({len(looks)} lookup(s): {sorted({l[0] for l in looks})})")
+        elif not looks:
+            ck.violation("R6", "parts-by-key", m["span"], "named parts are not fetched by key: no lookup in the message's part table found")
+        else:
+            for how, site, ps in bad:
+                ck.violation("R6", "parts-by-key", site, f"a bound part is selected by `{how}` with the predicate {ps}: not (only) the part name, so another part can be "
+                             f"taken for the bound one")
     h = F.lib.body("model::soap::binding::read_header_port_message")
     if h is not None:
         ht = " ".join(Hh.describe(x) for x in Hh.exprs(Hh.norm_body(h)["value"]) if x.get("k") in ("MethodCall", "Call"))
